@@ -354,6 +354,74 @@ def make_bodies(kind, threshold):
     return q
 
 
+# ---------------------------------------------------------------- another application gets settings of its own
+def make_other_config(when):
+    """application A runs with default settings; another application is constructed / set up with settings of its own
+    (own errors_map entries, limits, debug) before A serves or while A's handler runs: A's answers to good and bad request
+    bodies are those of A alone"""
+    from ombott.request_pkg.errors import BodySizeError, BodyParsingError, RequestError
+    own = [
+        {"errors_map": {BodySizeError: ombott.HTTPError(507, "B: quota"), BodyParsingError: ombott.HTTPError(422, "B: unreadable"),
+                        RequestError: ombott.HTTPError(409, "B: no")}},
+        {"errors_map": {BodySizeError: ombott.HTTPError(507, "B: quota")}, "max_body_size": 0, "debug": True},
+        {"max_body_size": 1, "max_memfile_size": 1, "catchall": False, "debug": True, "app_name_header": "X-B",
+         "domain_map": lambda host: "b"},
+    ]
+
+    def q(li: int, ci: int, chunked: bool, via_setup: bool):
+        assume(0 <= li <= 5 and 0 <= ci < len(own))
+        for k in range(6):
+            if li == k:
+                li = k
+        data = b"abcde"[:li]
+
+        def make_A():
+            A = ombott.Ombott({"max_body_size": 3})
+            seen = []
+
+            def h():
+                if when == "while":
+                    configure()
+                seen.append(A.request.body.read())
+                return b"got:" + seen[-1]
+            A.route("/a", method="POST", callback=h)
+            return A, seen
+
+        def configure():
+            if via_setup:
+                B = ombott.Ombott()
+                B.setup(own[ci])
+            else:
+                B = ombott.Ombott(own[ci])
+            return B
+
+        def send(A):
+            env = env_for("/a", "", "c", "h", "POST")
+            if chunked:
+                env["HTTP_TRANSFER_ENCODING"] = "chunked"
+                env["wsgi.input"] = io.BytesIO((b"%x\r\n" % len(data) + data + b"\r\n" if data else b"") + b"0\r\n" + (b"\r\n" if li != 4 else b""))
+            else:
+                env["CONTENT_LENGTH"] = str(len(data))
+                env["wsgi.input"] = io.BytesIO(data)
+            return call(A, env)
+        skip, configure_real = configure, configure
+        configure = lambda: None                    # reference: A alone
+        A0, seen0 = make_A()
+        ref = send(A0), list(seen0)
+        configure = configure_real
+        if when == "before":
+            configure()
+        A, seen = make_A()
+        got = send(A), list(seen)
+        if got != ref:
+            return ("another application was %s with settings of its own %s: application A answered %r (handler saw %r), "
+                    "alone %r (%r)" % ("constructed" if not via_setup else "set up", "before A served" if when == "before" else
+                                       "while A's handler ran", got[0], got[1], ref[0], ref[1]))
+        cover(got[0][0][0][0][:3])
+        return None
+    return q
+
+
 # ---------------------------------------------------------------- another application in another thread, any statement
 class StmtSched:
     """in front of statement k that thread T0 executes inside ombott (while application A serves), thread T1 serves a
@@ -437,6 +505,12 @@ def queries(tier):
                      "executes (every k in 1..%d; scheduling points inserted from the current source) application B serves a "
                      "%s request in simulated thread T1" % (n0, "routed" if kindB == "ok" else "404 (JSON client)"),
                      timeout=500, per_path_timeout=40, expect_cover=["ok"], family="stmt", config={"statements": n0}))
+    for when in ("before", "while"):
+        out.append(Q("otherconfig/%s" % when, make_other_config(when),
+                     "application A (default settings but max_body_size 3) is sent bodies of 0..5 bytes (Content-Length or chunked, "
+                     "one of them truncated): another application is constructed / set up (solver bool) with one of 3 own "
+                     "settings (own errors_map entries, limits, debug, domain_map) %s" % ("before A serves" if when == "before" else "inside A's handler"),
+                     timeout=200, per_path_timeout=40, expect_cover=["200", "413"], family="otherconfig"))
     for kind in ("raw", "upload"):
         th = 8 if kind == "raw" else len(MP_HEAD) + len(MP_TAIL) + 5
         out.append(Q("bodies/%s" % kind, make_bodies(kind, th),
